@@ -102,6 +102,7 @@ struct vout {
 	unsigned long nviol;
 	unsigned int nt_mod; /* record only hashes with h % nt_mod == 0 (1 = all) */
 	bool muted; /* dry runs: monitors stay silent */
+	const char *trap; /* coverage-guided fuzzing: a monitor verdict for this property ends the process like a sanitizer report would */
 };
 
 extern struct vout VO;
@@ -264,6 +265,10 @@ static inline void viol(const char *prop, const char *key, const char *fmt, ...)
 	json_str(VO.f, b);
 	fprintf(VO.f, "}\n");
 	fflush(VO.f);
+	if (VO.trap && !strcmp(VO.trap, prop)) {
+		fprintf(stderr, "MONITOR-VIOLATION prop=%s key=%s msg=%s\n", prop, key, b);
+		abort();
+	}
 }
 
 /* a case is non-trivial (rule stated by each harness); h identifies it for distinct counting */
